@@ -600,7 +600,7 @@ def translate_lie(repo):
                 raise Unsupported("function %s not found exactly once in %s" % (name, rel))
             lits_before = dict(tr.literals)
             defs.append(tr.function(fdefs[0], name + "_gen", ptys, rty))
-        except (Unsupported, KeyError, IndexError, AttributeError, TypeError) as e:
+        except Exception as e:  # noqa: fail-closed whatever goes wrong
             tr.literals = lits_before if "lits_before" in dir() else {}
             failed[name] = "%s: %s" % (type(e).__name__, e)
             defs.append(_lie_stub_def(name))
